@@ -112,6 +112,9 @@ def check_c03(chk, rng):
     execute(cases)
     verdicts = validate(cases, chk, "c03")
     judge("C03", cases, verdicts, chk, ("C03.", "C04.consumer"))
+    # an active and a passive usage of the very same definition over the same sources in one graph: ticks on the passive
+    # input alone must not run the passive usage, and must run the active one
+    check_sharing(chk, rng, only=("passive-second", "passive-first", "passive-cross"), prefix="passive-usage")
     for c in cases[:1] + cases[-2:]:
         chk.sample({"scenario": c.scn.splitlines(), "predicted": c.pred.get("writes"), "trace_events": len(c.events)})
     chk.coverage["rule"] = ("programs: every DAG over the vocabulary with <= %s source/compute nodes x 5 tick histories x start times "
@@ -383,14 +386,16 @@ def check_c06(chk, rng):
         chk.sample({"scenario": c.scn.splitlines()})
 
 
-def check_sharing(chk, rng):
+def check_sharing(chk, rng, only=None, prefix="share"):
     """Equal (definition, inputs, scalars) may share one instance without changing any output; statements differing in
     an input, a scalar, or in how an input is used (a passive usage), and every sink, must stay distinct.  The two
     statements are wired with `sameas`, i.e. literally the same definition and the same scalar values; what differs is
     chosen per scenario.  Whatever is shared, every recorder must see the stream Dataflow.tla specifies."""
     progs, scns, kinds = [], [], []
     variants = ["same", "diff-input", "diff-scalar", "passive-second", "passive-first", "passive-cross", "dup-sink"]
-    for k in range(60 if chk.tier == "quick" else 600):
+    if only:
+        variants = [v for v in variants if v in only]
+    for k in range((60 if chk.tier == "quick" else 600) if not only else (18 if chk.tier == "quick" else 150)):
         var = variants[k % len(variants)]
         horizon = 6
         s1 = P.gen_script(rng, horizon, maxlen=3)
@@ -444,7 +449,7 @@ def check_sharing(chk, rng):
     # the same definition with equal scalars on two different elements of ONE producer's list output: the inputs differ
     # (only) in the path below the producer, so the two statements must stay distinct
     recs_of = {}
-    for k in range(12 if chk.tier == "quick" else 150):
+    for k in range(0 if only else (12 if chk.tier == "quick" else 150)):
         horizon = 6
         s1 = P.gen_script(rng, horizon, maxlen=3)
         s2 = P.gen_script(rng, horizon, maxlen=4, values=(10, 20, 30))
@@ -466,7 +471,7 @@ def check_sharing(chk, rng):
         scns.append("\n".join(lines))
         recs_of[p["id"]] = ((7, 5), (8, 6))
     # one list, several reductions that differ only in the (scalar) function: they must stay distinct
-    for k in range(10 if chk.tier == "quick" else 120):
+    for k in range(0 if only else (10 if chk.tier == "quick" else 120)):
         horizon = 6
         nodes = [P.node("src", script=P.gen_script(rng, horizon, maxlen=3, values=(1, 2, 3, 5, 8))) for _ in range(3)]
         combs = rng.sample(["lradd", "lrmin", "lrmax"], 3)
@@ -499,7 +504,7 @@ def check_sharing(chk, rng):
                 want = sorted(want + pw.get(7, []))     # both sinks are wired with id 5: each must record every tick
                 got = sorted(got)
             if got != want:
-                chk.violation("share:%s" % var,
+                chk.violation("%s:%s" % (prefix, var),
                               "statement %d (%s): its consumer must see %s (Dataflow.tla), saw %s - sharing / distinctness changed an output"
                               % (nid, var, want, got), "# C06 sharing: %s\n%s\n" % (var, scn))
                 break
